@@ -101,6 +101,7 @@ fn main() {
         libc::setrlimit(libc::RLIMIT_AS, &lim);
     }
     vharness::monitor::open_journal(&cfg);
+    vharness::monitor::start_call_supervisor();
     start_watchdog(&prop, tier.pick(1500, 4 * 3600));
     match vharness::props::run(&cfg) {
         Some(mut report) => {
